@@ -127,7 +127,7 @@ def c20(tier, seed):
             dict(cfg="p21n", traces=n(tier, 60, 500), preds=["C20_OnlyControllingEnabled"]),
             # renominations from an address known only as a peer-reflexive candidate, superseded while the value is deferred
             dict(cfg="p21nat", traces=n(tier, 150, 2000), drain=True, notime=True, zerowait=True, preds=C20_PREDS)]
-    plan = {"runs": runs, "mc": [("p21", ["SelListed", "NoDupPairs", "RenomAgree"], n(tier, None, {"MaxRenom": 2}))], "mc_timeout": n(tier, 600, 3000),
+    plan = {"runs": runs, "mc": [("p21", ["SelListed", "NoDupPairs", "RenomAgree"], n(tier, None, {"MaxRenom": 2}))], "mc_timeout": n(tier, 600, 7200),
             "assumptions": SESSION_ASSUME + [
         "quiescent agreement is judged on loss-free traces after the fair suffix, with a frozen clock"]}
     return session.run_property("C20", tier, seed, plan)
